@@ -6,7 +6,7 @@
 (* result is computed by the specification module of that function.        *)
 (* Divergences are collected as data.  TRACE / OUT as in Trace_Session.    *)
 (***************************************************************************)
-EXTENDS ScriptNum, Flags, TxCodec, Amounts, Json, IOUtils, TLC
+EXTENDS SpendSetup, Flags, Amounts, Bech32, Json, IOUtils, TLC
 
 Tr == ndJsonDeserialize(IOEnv.TRACE)
 OutFile == IOEnv.OUT
@@ -71,6 +71,41 @@ AmtExpected(ev) ==
        ELSE [ok |-> TRUE, amounts |-> [i \in 1..3 |-> IF i <= Len(items) THEN <<IsNeg(parsed[i][2]), BytesToHex(Mag(parsed[i][2]))>> ELSE <<FALSE, "">>]]
 AmtObserved(ev) == [ok |-> ev.ok, amounts |-> IF ev.ok THEN [i \in 1..3 |-> IF i <= Len(ev.amounts) THEN <<ev.amounts[i][1], ev.amounts[i][2]>> ELSE <<FALSE, "??">>] ELSE <<>>]
 
+(* ---- C06: the tap tool: address, witness (script + control block), reported signature hash ---- *)
+TapChecks(ev) ==
+    LET dec == B32Decode(StrToCodes(ev.addr))
+        q5 == IF dec[1] = "bech32m" /\ Len(dec[3]) >= 1 THEN From5(Tail(dec[3])) ELSE <<FALSE, <<>>>>
+        Q == q5[2]
+        key == H(ev.key)
+        addrOK == /\ ev.addr = ev.addr0 /\ dec[1] = "bech32m" /\ dec[2] = StrToCodes(ev.hrp) /\ dec[3][1] = 1 /\ q5[1] /\ Len(Q) = 32
+        \* single leaf: the output key is the BIP341 tweak of the internal key with that leaf (checked in every mode)
+        singleOK == Len(ev.scripts) = 1 => XOnlyTweakAdd(key, TapTweakHash(key, TapLeafHash(192, H(ev.scripts[1]))))[3] = Q
+    IN IF ev.mode = "fund" THEN [addr |-> addrOK /\ singleOK, witness |-> TRUE, sighash |-> TRUE]
+       ELSE LET tx == Parse(H(ev.tx))[2]
+                funding == Parse(H(ev.txin))[2]
+                sel == SelectInput(tx, funding, -1)
+                nin == sel[2]
+                n == LEVal(tx.vin[nin + 1].n)
+                out == funding.vout[n + 1]
+                w == tx.wit[nin + 1]
+                spkOK == out.script = <<81, 32>> \o Q
+                ctx(leaf) == [tx |-> tx, nin |-> nin, amount |-> out.amount, spent |-> <<[amount |-> out.amount, script |-> out.script]>>, annex |-> <<FALSE, <<>>>>, leafhash |-> leaf]
+            IN IF ev.mode = "key" THEN
+                   [addr |-> addrOK /\ singleOK /\ spkOK, witness |-> Len(w) = 1 /\ (ev.sig # "" => w[1] = H(ev.sig)),
+                    sighash |-> ev.sighash = "" \/ H(ev.sighash) = TaprootDigest(ctx(<<>>), [cspos |-> -1], 0, TRUE)[2]]
+               ELSE LET script == w[Len(w) - 1]
+                        control == w[Len(w)]
+                        args == SubSeq(w, 2, Len(w) - 2)
+                    IN [addr |-> addrOK /\ singleOK /\ spkOK,
+                        witness |-> /\ Len(w) >= 3 /\ script = H(ev.scripts[ev.idx + 1]) /\ args = [i \in 1..Len(ev.args) |-> H(ev.args[i])]
+                                    /\ (ev.sig # "" => w[1] = H(ev.sig))
+                                    /\ ControlSizeOK(control) /\ Take(control, 1, 32) = key /\ control[1] \in {192, 193}
+                                    /\ CommitmentOK(control, Q, script),
+                        sighash |-> ev.sighash = "" \/ H(ev.sighash) = TaprootDigest(ctx(TapLeafHash(192, script)), [cspos |-> -1], 0, FALSE)[2]]
+TapExpected(ev) == [addr |-> TRUE, witness |-> TRUE, sighash |-> TRUE, code |-> 0]
+TapObserved(ev) == IF ev.code # 0 THEN [addr |-> FALSE, witness |-> FALSE, sighash |-> FALSE, code |-> ev.code]
+                   ELSE LET c == TapChecks(ev) IN [addr |-> c.addr, witness |-> c.witness, sighash |-> c.sighash, code |-> 0]
+
 Init == l = 1 /\ divs = <<>> /\ cov = {} /\ stats = [calls |-> 0]
 
 Judge(ev, exp, obs, class) ==
@@ -88,6 +123,7 @@ Next ==
        ELSE IF ev.e = "Tx" THEN
             (IF TxExpected(ev).ok = "unspec" THEN /\ stats' = [stats EXCEPT !.calls = @ + 1] /\ cov' = cov \cup {<<"Tx", "trailing-bytes">>} /\ UNCHANGED divs
              ELSE Judge(ev, TxExpected(ev), TxObserved(ev), <<"Tx", ev.ok, IF ev.ok THEN ev.haswit ELSE FALSE, IF ev.ok THEN Len(ev.vin) ELSE 0>>))
+       ELSE IF ev.e = "Tap" THEN Judge(ev, TapExpected(ev), TapObserved(ev), <<"Tap", ev.mode, Len(ev.scripts), ev.sighash # "">>)
        ELSE IF ev.e = "Amt" THEN Judge(ev, AmtExpected(ev), AmtObserved(ev), <<"Amt", ev.ok>>)
        ELSE IF ev.e = "FlagList" THEN Judge(ev, FlagListExpected(ev), FlagListObserved(ev), <<"FlagList", ev.accepted, Len(ev.flags)>>)
        ELSE IF ev.e = "DefaultFlags" THEN Judge(ev, DefaultExpected(ev), DefaultObserved(ev), <<"DefaultFlags">>)
